@@ -84,7 +84,7 @@ pub proof fn lemma_fill(pre: Seq<Fe>, s0: Seq<ScheduleEntry>, s1: Seq<ScheduleEn
             packs_ok(pre, s0, pack_k) ==> packs_ok(pre, s1, pack_k),
             rows_chain_ok(pre, s0, lanes) && s0.len() > 0 ==> rows_chain_ok(pre, s1, lanes),
             // a row that was started is completed: its lane-0 entry is the last row's lane-0 entry afterwards
-            s0.len() % (lanes as nat) == 1 % (lanes as nat) && s0.len() >= 1 && (s0.len() - 1) % lanes == 0 ==> s1.len() == s0.len() - 1 + lanes && last_lane0(s1, lanes) == s0[s0.len() - 1],
+            s0.len() >= 1 && (s0.len() - 1) % lanes == 0 ==> s1.len() == s0.len() - 1 + lanes && last_lane0(s1, lanes) == s0[s0.len() - 1],
 {
     lemma_appended(pre, s0, s1, n0, non_chain, lanes, pack_k);
     if rows_chain_ok(pre, s0, lanes) && s0.len() > 0 {
@@ -114,7 +114,23 @@ pub proof fn lemma_hs_props(pre: Seq<Fe>, n: int)
             forall|q: int| 0 <= q < os_upto(pre, n).len() ==> !is_h(pre, #[trigger] os_upto(pre, n)[q]) && 0 <= os_upto(pre, n)[q] < n,
     decreases n
 {
-    if n > 0 { lemma_hs_props(pre, n - 1); }
+    if n > 0 {
+        lemma_hs_props(pre, n - 1);
+        let (h0, o0) = (hs_upto(pre, n - 1), os_upto(pre, n - 1));
+        assert forall|q: int| 0 <= q < hs_upto(pre, n).len() implies is_h(pre, #[trigger] hs_upto(pre, n)[q]) && 0 <= hs_upto(pre, n)[q] < n by {
+            if q < h0.len() { assert(hs_upto(pre, n)[q] == h0[q]); }
+        }
+        assert forall|q: int| 0 <= q < os_upto(pre, n).len() implies !is_h(pre, #[trigger] os_upto(pre, n)[q]) && 0 <= os_upto(pre, n)[q] < n by {
+            if q < o0.len() { assert(os_upto(pre, n)[q] == o0[q]); }
+        }
+    }
+}
+pub proof fn lemma_os_len(pre: Seq<Fe>, n: int)
+    requires 0 <= n
+    ensures os_upto(pre, n).len() <= n, hs_upto(pre, n).len() <= n
+    decreases n
+{
+    if n > 0 { lemma_os_len(pre, n - 1); }
 }
 pub proof fn lemma_flat_push(cs: Seq<Vec<usize>>, c: Vec<usize>)
     ensures flat(cs.push(c)) == flat(cs) + ints(c@)
@@ -126,5 +142,42 @@ pub proof fn lemma_flat_take(cs: Seq<Vec<usize>>, k: int)
     ensures flat(cs.take(k + 1)) == flat(cs.take(k)) + ints(cs[k]@)
 {
     assert(cs.take(k + 1).drop_last() =~= cs.take(k));
+}
+} // verus!
+verus! {
+pub proof fn lemma_push_plain(pre: Seq<Fe>, s: Seq<ScheduleEntry>, e: ScheduleEntry, lanes: int, pk: int)
+    requires lanes >= 1, !is_chain_entry(pre, e), !(e is PackedHorner), lane0_discipline(pre, s, lanes), packs_ok(pre, s, pk),
+             (s.len() > 0 ==> rows_chain_ok(pre, s, lanes)), (s.len() == 0 ==> e is Separator),
+    ensures lane0_discipline(pre, s.push(e), lanes), packs_ok(pre, s.push(e), pk), rows_chain_ok(pre, s.push(e), lanes),
+            chain_ops(pre, s.push(e)) == chain_ops(pre, s), other_ops(pre, s.push(e)) == other_ops(pre, s) + e_other(pre, e),
+{
+    let t = s.push(e);
+    lemma_push_ops(pre, s, e);
+    assert(e_chain(pre, e) =~= Seq::<int>::empty());
+    assert(chain_ops(pre, s) + Seq::<int>::empty() =~= chain_ops(pre, s));
+    assert forall|p: int| 0 <= p < t.len() && is_chain_entry(pre, #[trigger] t[p]) implies p % lanes == 0 by { if p < s.len() { assert(t[p] == s[p]); } }
+    assert forall|p: int| 0 <= p < t.len() implies ((#[trigger] t[p]) matches ScheduleEntry::PackedHorner(i, k) ==>
+        2 <= k <= pk && i + k <= n_ops(pre) && forall|j: int| 0 <= j < k ==> #[trigger] b_of(pre, i + j) == b_of(pre, i as int)) by { if p < s.len() { assert(t[p] == s[p]); } }
+    assert forall|p: int| lanes <= p < t.len() && p % lanes == 0 && is_chain_entry(pre, #[trigger] t[p]) && is_chain_entry(pre, t[p - lanes])
+        implies first_op(t[p]) == last_op(t[p - lanes]) + 1 by { assert(p < s.len()); assert(t[p] == s[p] && t[p - lanes] == s[p - lanes]); }
+    if s.len() > 0 { assert(t[0] == s[0]); }
+}
+pub proof fn lemma_push_chain_entry(pre: Seq<Fe>, s: Seq<ScheduleEntry>, e: ScheduleEntry, lanes: int, pk: int)
+    requires lanes >= 1, s.len() >= lanes, s.len() % (lanes as nat) == 0, lane0_discipline(pre, s, lanes), packs_ok(pre, s, pk), rows_chain_ok(pre, s, lanes),
+             is_chain_entry(pre, e),
+             is_chain_entry(pre, last_lane0(s, lanes)) ==> first_op(e) == last_op(last_lane0(s, lanes)) + 1,
+             e matches ScheduleEntry::PackedHorner(i, k) ==> 2 <= k <= pk && i + k <= n_ops(pre) && forall|j: int| 0 <= j < k ==> #[trigger] b_of(pre, i + j) == b_of(pre, i as int),
+    ensures lane0_discipline(pre, s.push(e), lanes), packs_ok(pre, s.push(e), pk), rows_chain_ok(pre, s.push(e), lanes),
+{
+    let t = s.push(e);
+    assert forall|p: int| 0 <= p < t.len() && is_chain_entry(pre, #[trigger] t[p]) implies p % lanes == 0 by { if p < s.len() { assert(t[p] == s[p]); } }
+    assert forall|p: int| 0 <= p < t.len() implies ((#[trigger] t[p]) matches ScheduleEntry::PackedHorner(i, k) ==>
+        2 <= k <= pk && i + k <= n_ops(pre) && forall|j: int| 0 <= j < k ==> #[trigger] b_of(pre, i + j) == b_of(pre, i as int)) by { if p < s.len() { assert(t[p] == s[p]); } }
+    assert forall|p: int| lanes <= p < t.len() && p % lanes == 0 && is_chain_entry(pre, #[trigger] t[p]) && is_chain_entry(pre, t[p - lanes])
+        implies first_op(t[p]) == last_op(t[p - lanes]) + 1 by {
+        if p < s.len() { assert(t[p] == s[p] && t[p - lanes] == s[p - lanes]); }
+        else { assert(t[p - lanes] == s[s.len() - lanes]); }
+    }
+    assert(t[0] == s[0]);
 }
 } // verus!
